@@ -74,6 +74,11 @@ struct Model {
     /// per predicate: an asserta happened / a call went through first-argument indexing
     asserta_seen: [bool; 2],
     retract_seen: [bool; 2],
+    /// calls of the predicate whose choice points are alive right now
+    open_calls: [u32; 2],
+    /// a clause was asserted while a call of the predicate was open, in a predicate that has
+    /// seen both an asserta and a retraction (what is left of the clause-threading defects)
+    threading_hazard: bool,
     indexed_call: [bool; 2],
     /// a re-entrant retract/1 that reaches a clause someone else removed meanwhile may still
     /// offer it as an answer (true) or skip it (false): the statement fixes neither, so the
@@ -216,6 +221,7 @@ fn solve(m: &mut Model, pred: &str, pat: &[Option<String>], k: &mut dyn FnMut(&m
         m.open_indexed.push((pred.to_string(), key.clone()));
         m.indexed_call[pred_ix(pred)] = true;
     }
+    m.open_calls[pred_ix(pred)] += 1;
     'outer: for c in snap {
         match &c.body {
             None => k(m, &inst(pat, &c.args)),
@@ -229,6 +235,7 @@ fn solve(m: &mut Model, pred: &str, pat: &[Option<String>], k: &mut dyn FnMut(&m
                     m.open_indexed.push(("q".to_string(), key.clone()));
                     m.indexed_call[1] = true;
                 }
+                m.open_calls[1] += 1;
                 for _c2 in inner {
                     k(m, &inst(pat, &c.args));
                     if m.stop() {
@@ -238,6 +245,7 @@ fn solve(m: &mut Model, pred: &str, pat: &[Option<String>], k: &mut dyn FnMut(&m
                 if inner_key.is_some() {
                     m.open_indexed.pop();
                 }
+                m.open_calls[1] -= 1;
             }
         }
         if m.stop() {
@@ -247,6 +255,7 @@ fn solve(m: &mut Model, pred: &str, pat: &[Option<String>], k: &mut dyn FnMut(&m
     if outer_key.is_some() {
         m.open_indexed.pop();
     }
+    m.open_calls[pred_ix(pred)] -= 1;
 }
 
 /// Reference interpreter: run ops[k..] as a conjunction followed by `fail`.
@@ -294,6 +303,9 @@ fn run(m: &mut Model, ops: &[Value], k: usize) {
             }
             if first == "_" {
                 m.var_headed[pi] = true;
+            }
+            if m.open_calls[pi] > 0 && m.asserta_seen[pi] && m.retract_seen[pi] {
+                m.threading_hazard = true;
             }
             let v = m.pred(&pred);
             if front {
@@ -615,7 +627,7 @@ impl Check for C09 {
                 2 => "assert-into-bucket-after-retract",
                 // 4: asserta/1 on a predicate that is also called with a bound first argument
                 4 => "asserta-and-indexed-call",
-                _ => "var-headed-clause-with-retract-and-asserta",
+                _ => "assert-under-open-call-after-asserta-and-retract",
             };
             for v in out.violations.iter_mut() {
                 if !v.key.starts_with("with-open-clause-cursor:") {
@@ -727,7 +739,7 @@ impl C09 {
         // retraction and an asserta (a call with a bound first argument then loses a later
         // variable-headed clause)
         let narrow = (0..2).any(|i| model.var_headed[i] && model.retract_seen[i] && model.asserta_seen[i]);
-        *hazard = if narrow { 3 } else { 0 };
+        *hazard = if narrow || model.threading_hazard { 3 } else { 0 };
         let want_db = model.db_text();
         if out_stats_dup {
             out.bump("histories_asserting_into_a_bucket_after_a_retraction", 1);
